@@ -74,13 +74,13 @@ func semParse(fn string, in []byte, rule sem.Rule, T string) (v sem.Ver, err err
 		} else {
 			switch fn {
 			case "Parse":
-				v, err = sem.Parse(in)
+				v, err = sem.Parse(reused(in))
 			case "ParseVersion":
-				v, err = sem.ParseVersion(in)
+				v, err = sem.ParseVersion(reused(in))
 			case "ParseTag":
-				v, err = sem.ParseTag(in)
+				v, err = sem.ParseTag(reused(in))
 			default:
-				v, err = sem.DefaultParser(in, rule)
+				v, err = sem.DefaultParser(reused(in), rule)
 			}
 		}
 	})
@@ -143,6 +143,18 @@ func init() {
 		t, _ := sem.DefaultFormatter(nil, v, 0)
 		tt, _ := sem.DefaultFormatter(nil, v, sem.FormatTag)
 		e["text"], e["texttag"] = B(t), B(tt)
+		m1, _ := v.MarshalText()
+		e["mt"] = B(m1)
+		for i := range m1 {
+			m1[i] = '#'
+		}
+		m2, _ := v.MarshalText()
+		e["mt2"] = B(m2)
+		held, _ := v.MarshalText()
+		oth := sem.Ver{Major: v.Major + 1, Minor: 77, PreRelease: "other.1", Build: "x"}
+		_, _ = oth.MarshalText()
+		_, _ = sem.DefaultFormatter(nil, oth, sem.FormatTag)
+		e["held"] = B(held)
 		b, perr := sem.Parse(string(t))
 		e["back"] = Ev{"ok": perr == nil, "v": verEv(b)}
 		return e
